@@ -55,6 +55,7 @@ func runC04(p *Program, r *Report) {
 	c04unmask(p, r, "C04.unmask")
 	c04adapters(p, r, "C04.adapters")
 	c03hdr(p, r, "C04.hdr")
+	c04state(p, r, "C04.state")
 }
 
 func c04eom(p *Program, r *Report, rule string) {
@@ -223,6 +224,52 @@ func c04unmask(p *Program, r *Report, rule string) {
 			}
 			return false, "reads into " + a.Key()
 		})
+}
+
+// c04state: the frame state that decides "message complete" is written only where a frame header is
+// installed (setFrame, from the header just read) and where payload bytes are accounted (read).
+func c04state(p *Program, r *Report, rule string) {
+	for _, s := range []struct {
+		field string
+		fns   map[string]bool
+	}{
+		{"msgReader.fin", map[string]bool{"msgReader.setFrame": true, "msgReader.read": true}},
+		{"msgReader.payloadLength", map[string]bool{"msgReader.setFrame": true, "msgReader.read": true}},
+	} {
+		f := p.Field(s.field)
+		if f == nil {
+			continue
+		}
+		for _, fa := range p.FieldAccesses(f) {
+			if !fa.Write && !fa.Addr {
+				continue
+			}
+			root := fa.Fn
+			for root.Parent() != nil {
+				root = root.Parent()
+			}
+			if constructorFns[p.FuncName(root)] {
+				continue
+			}
+			fname := p.FuncName(fa.Fn)
+			ok := true
+			for _, owner := range p.siteOwners(fa.Fn) {
+				if !s.fns[owner] {
+					ok = false
+				}
+			}
+			detail := fname
+			if ok && fa.Store != nil && s.field == "msgReader.fin" {
+				// the value is the fin bit of a header (never a constant)
+				if c, isC := fa.Store.Val.(*ssa.Const); isC {
+					ok = false
+					detail = "constant " + c.String() + " stored into fin in " + fname
+				}
+			}
+			r.Check(rule, fname, "store "+s.field, p.InstrPos(fa.Instr), ok, s.field+" is written only when a frame header is installed or payload is consumed, from the header's own value: an error path must not turn a truncated message into the state 'final frame fully received'", detail)
+		}
+	}
+	r.Floor(rule, 3)
 }
 
 func c04adapters(p *Program, r *Report, rule string) {
